@@ -7,7 +7,7 @@
    same, load for load -- so what a caller decided is what the decision rule says
    for one of the configurations that were ever installed. *)
 From Coq Require Import ZifyBool.
-From CV Require Import Conc.Sched Conc.Gauge.
+From CV Require Import Conc.Sched Conc.Gauge Conc.Transition_Proofs.
 
 Definition cfg : Type := Z * Z * Z * bool.     (* timeout, run limit, fallback limit, fallback disabled *)
 Definition c_tmo (c : cfg) : Z := let '(t, _, _, _) := c in t.
@@ -84,7 +84,7 @@ Proof.
                   (forall c, cfg_of lo' = Some c -> In c installed) /\ old_or_new lo').
     { destruct Ht0 as (ct & Hct & Et). destruct Hm0 as (cm & Hcm & Em). destruct Hf0 as (cf & Hcf & Ef). destruct Hd0 as (cd & Hcd & Ed).
       destruct pc; destruct run; destruct fb; cbn [gstep1] in Ht; inversion Ht; subst; clear Ht;
-        cbn [g_timeout g_max g_fbmax g_fbdis set_cmds set_fbs cfg_of old_or_new];
+        cbn [g_timeout g_max g_fbmax g_fbdis g_cfgheld set_cmds set_fbs cfg_of old_or_new];
         (repeat split; try reflexivity; try (intros ? ?; discriminate); try exact I);
         cbn [old_or_new] in Hlo;
         repeat match goal with |- context [if ?b then _ else _] => destruct b eqn:? end;
@@ -100,7 +100,7 @@ Proof.
     unfold InvV. rewrite E1, E2, E3, E4. repeat split; try assumption; apply Forall_upd; assumption.
   - (* a reconfiguration stores one setting: the new value is an installed one *)
     assert (Hin : In (tm, m, fm, fd) installed) by (apply Hlc; reflexivity).
-    destruct n as [|[|[|[|n]]]]; cbn [gstep1] in Ht; inversion Ht; subst; clear Ht; unfold InvV;
+    destruct n as [|[|[|[|[|[|[|n]]]]]]]; cbn [gstep1] in Ht; try (destruct (g_cfgheld sh)); inversion Ht; subst; clear Ht; unfold InvV;
       cbn [g_timeout g_max g_fbmax g_fbdis];
       (repeat split; try assumption;
        try (exists (tm, m, fm, fd); split; [exact Hin | reflexivity]);
@@ -114,5 +114,137 @@ Theorem old_or_new_reachable : forall s,
 Proof.
   intros s Hf Hr. pose proof (inv_reach _ _ _ InvV _ (invV_init Hf) invV_step s Hr) as H.
   destruct s as [sh pool]. destruct H as (_ & _ & _ & _ & _ & H). exact H.
+Qed.
+
+(* ---------- a reconfiguration is atomic for the settings as a whole ---------- *)
+(* SetConfigThreadSafe stores the settings and forwards the configuration to the open/close logic between Lock and
+   Unlock of one mutex; so whenever nobody is inside that section the four live settings are those of ONE installed
+   configuration (never a mixture of two reconfigurations), and while somebody is inside they are that thread's
+   new values so far over the configuration it found. *)
+Definition settings (sh : gshared) : cfg := (g_timeout sh, g_max sh, g_fbmax sh, g_fbdis sh).
+Definition partial (k : nat) (new c : cfg) : cfg :=
+  ( if Nat.leb 2 k then c_tmo new else c_tmo c,
+    if Nat.leb 3 k then c_max new else c_max c,
+    if Nat.leb 5 k then c_fbmax new else c_fbmax c,
+    if Nat.leb 4 k then c_fbdis new else c_fbdis c ).
+Definition progress_ok (sh : gshared) (c : cfg) (l : glocal) : Prop :=
+  match l with
+  | Setter tm m fm fd k => in_cfg_section l = true -> settings sh = partial k (tm, m, fm, fd) c
+  | _ => True
+  end.
+
+Definition InvT (s : gshared * list glocal) : Prop :=
+  let (sh, pool) := s in
+  cnt in_cfg_section pool = (if g_cfgheld sh then 1 else 0) /\
+  Forall (fun l => forall c, cfg_of l = Some c -> In c installed) pool /\
+  exists c, In c installed /\ (g_cfgheld sh = false -> settings sh = c) /\ Forall (progress_ok sh c) pool.
+
+Lemma fresh_not_in_section l : fresh l = true -> in_cfg_section l = false.
+Proof. destruct l as [run fb pc | tm m fm fd n | n]; [destruct pc| |]; cbn; intros H; try discriminate; try reflexivity.
+  destruct n as [|n]; [reflexivity|discriminate]. Qed.
+
+Lemma invT_init : all_fresh pool0 -> InvT (ginit tmo max fbmax fbdis, pool0).
+Proof.
+  intros Hf. unfold InvT. cbn [ginit g_cfgheld]. repeat split.
+  - apply cnt_zero. eapply Forall_impl; [|exact Hf]. intros l Hl. apply fresh_not_in_section; exact Hl.
+  - apply Forall_forall. intros l Hl c Hc. right. eapply setter_cfgs_in; eauto.
+  - exists (tmo, max, fbmax, fbdis). split; [left; reflexivity|]. split; [intros _; reflexivity|].
+    eapply Forall_impl; [|exact Hf]. intros l Hl. pose proof (fresh_not_in_section l Hl) as Hn.
+    destruct l; cbn [progress_ok]; try exact I. rewrite Hn. discriminate.
+Qed.
+
+Lemma progress_ok_ext sh sh' c l : settings sh' = settings sh -> progress_ok sh c l -> progress_ok sh' c l.
+Proof. intros E H. destruct l; cbn [progress_ok] in *; try exact I. rewrite E. exact H. Qed.
+
+(* the thread inside the section takes a step that keeps it inside *)
+Lemma section_move sh sh' pool i tm m fm fd k c :
+  nth_error pool i = Some (Setter tm m fm fd k) ->
+  in_cfg_section (Setter tm m fm fd k) = true -> in_cfg_section (Setter tm m fm fd (S k)) = true ->
+  g_cfgheld sh' = true ->
+  settings sh' = partial (S k) (tm, m, fm, fd) c ->
+  In c installed ->
+  InvT (sh, pool) -> InvT (sh', upd i (Setter tm m fm fd (S k)) pool).
+Proof.
+  intros Hn Hin Hin' Hh' Eset Hc (Hcnt & Hcfg & _).
+  assert (Hheld : g_cfgheld sh = true).
+  { destruct (g_cfgheld sh); [reflexivity|]. pose proof (cnt_ge in_cfg_section pool i _ Hn) as Hge. rewrite Hin in Hge. cbn [b2z] in Hge. lia. }
+  rewrite Hheld in Hcnt.
+  unfold InvT. rewrite Hh'. rewrite (cnt_upd _ in_cfg_section _ _ _ _ Hn), Hin, Hin'. cbn [b2z]. repeat split.
+  - lia.
+  - apply Forall_upd; [exact Hcfg|]. intros c' Hc'. cbn [cfg_of] in Hc'.
+    apply (nth_error_Forall _ _ _ _ _ Hcfg Hn). exact Hc'.
+  - exists c. split; [exact Hc|]. split; [discriminate|].
+    apply (cnt_one_others in_cfg_section (progress_ok sh' c) pool i _ _ Hn Hin); [lia| |].
+    + intros x Hx. destruct x; cbn [progress_ok]; try exact I. rewrite Hx. discriminate.
+    + cbn [progress_ok]. intros _. exact Eset.
+Qed.
+
+Lemma invT_step s s' : InvT s -> gstep gstep1 s s' -> InvT s'.
+Proof.
+  intros HI Hs. destruct Hs as [sh pool i lo sh' lo' lb Hn Ht].
+  pose proof HI as HI0.
+  destruct HI as (Hcnt & Hcfg & c & Hc & Hfree & Hprog).
+  pose proof (nth_error_Forall _ _ _ _ _ Hcfg Hn) as Hlc.
+  pose proof (nth_error_Forall _ _ _ _ _ Hprog Hn) as Hlp.
+  assert (Hout : forall sh2 lo2, settings sh2 = settings sh -> g_cfgheld sh2 = g_cfgheld sh ->
+                 in_cfg_section lo = false -> in_cfg_section lo2 = false -> cfg_of lo2 = cfg_of lo -> InvT (sh2, upd i lo2 pool)).
+  { intros sh2 lo2 E1 E2 E0 E3 E4. unfold InvT. rewrite E2.
+    rewrite (cnt_upd _ in_cfg_section _ _ _ _ Hn), E0, E3. cbn [b2z]. repeat split.
+    - lia.
+    - apply Forall_upd; [exact Hcfg|]. intros c' Hc'. rewrite E4 in Hc'. apply Hlc; exact Hc'.
+    - exists c. split; [exact Hc|]. split; [intros H; rewrite E1; auto|].
+      apply Forall_upd; [eapply Forall_impl; [|exact Hprog]; intros l; apply progress_ok_ext; exact E1|].
+      destruct lo2; cbn [progress_ok]; try exact I. rewrite E3. discriminate. }
+  destruct lo as [run fb pc | tm m fm fd n | n].
+  - (* a caller: settings and the section are untouched *)
+    destruct pc; destruct run; destruct fb; cbn [gstep1] in Ht; inversion Ht; subst; clear Ht;
+      repeat match goal with |- context [if ?b then _ else _] => destruct b end; apply Hout; reflexivity.
+  - (* a reconfiguration *)
+    assert (Hin : In (tm, m, fm, fd) installed) by (apply Hlc; reflexivity).
+    assert (Hheld : in_cfg_section (Setter tm m fm fd n) = true -> g_cfgheld sh = true).
+    { intros Hsec. destruct (g_cfgheld sh); [reflexivity|]. pose proof (cnt_ge in_cfg_section pool i _ Hn) as Hge. rewrite Hsec in Hge. cbn [b2z] in Hge. lia. }
+    destruct n as [|n].
+    { (* Lock: nobody was inside *)
+      cbn [gstep1] in Ht. destruct (g_cfgheld sh) eqn:Hh; inversion Ht; subst; clear Ht.
+      unfold InvT. cbn [g_cfgheld]. rewrite (cnt_upd _ in_cfg_section _ _ _ _ Hn). cbn [in_cfg_section b2z]. repeat split.
+      * lia.
+      * apply Forall_upd; [exact Hcfg|]. intros c' Hc'. cbn [cfg_of] in Hc'. injection Hc' as <-. exact Hin.
+      * exists c. split; [exact Hc|]. split; [discriminate|].
+        assert (Hnone : Forall (fun x => in_cfg_section x = false) pool) by (apply cnt_zero_inv; exact Hcnt).
+        apply Forall_upd.
+        -- eapply Forall_impl; [|exact Hnone]. intros l Hl. destruct l; cbn [progress_ok]; try exact I. rewrite Hl. discriminate.
+        -- cbn [progress_ok in_cfg_section]. intros _. rewrite <- (Hfree eq_refl). unfold settings, partial. cbn [g_timeout g_max g_fbmax g_fbdis Nat.leb]. reflexivity. }
+    destruct n as [|[|[|[|[|[|n]]]]]]; cbn [gstep1] in Ht; inversion Ht; subst; clear Ht.
+    all: specialize (Hheld eq_refl).
+    all: cbn [progress_ok] in Hlp; specialize (Hlp eq_refl); unfold settings, partial in Hlp; cbn [Nat.leb] in Hlp; injection Hlp as E1 E2 E3 E4.
+    all: try (eapply section_move; [exact Hn | reflexivity | reflexivity | | | exact Hc | exact HI0]; cbn [g_cfgheld]; [first [reflexivity | assumption] | unfold settings, partial; cbn [g_timeout g_max g_fbmax g_fbdis Nat.leb c_tmo c_max c_fbmax c_fbdis]; congruence]).
+    + (* Unlock: the settings are now exactly this reconfiguration's *)
+      rewrite Hheld in Hcnt.
+      unfold InvT. cbn [g_cfgheld]. rewrite (cnt_upd _ in_cfg_section _ _ _ _ Hn). cbn [in_cfg_section b2z]. repeat split.
+      * lia.
+      * apply Forall_upd; [exact Hcfg|]. intros c' Hc'. cbn [cfg_of] in Hc'. injection Hc' as <-. exact Hin.
+      * exists (tm, m, fm, fd). split; [exact Hin|]. split.
+        -- intros _. unfold settings. cbn [g_timeout g_max g_fbmax g_fbdis]. cbn [c_tmo c_max c_fbmax c_fbdis] in *. congruence.
+        -- apply (cnt_one_others in_cfg_section _ pool i _ _ Hn eq_refl); [lia| |].
+           ++ intros x Hx. destruct x; cbn [progress_ok]; try exact I. rewrite Hx. discriminate.
+           ++ cbn [progress_ok in_cfg_section]. discriminate.
+  - (* a reader *)
+    destruct n as [|[|n]]; cbn [gstep1] in Ht; inversion Ht; subst; clear Ht; apply Hout; reflexivity.
+Qed.
+
+Theorem settings_not_torn : forall s,
+  all_fresh pool0 -> reach gstep1 (ginit tmo max fbmax fbdis, pool0) s ->
+  g_cfgheld (fst s) = false -> In (settings (fst s)) installed.
+Proof.
+  intros s Hf Hr Hh. pose proof (inv_reach _ _ _ InvT _ (invT_init Hf) invT_step s Hr) as H.
+  destruct s as [sh pool]. destruct H as (_ & _ & c & Hc & Hfree & _). cbn [fst] in *. rewrite (Hfree Hh). exact Hc.
+Qed.
+(* ... and at most one reconfiguration is inside the section *)
+Theorem cfg_section_exclusive : forall s,
+  all_fresh pool0 -> reach gstep1 (ginit tmo max fbmax fbdis, pool0) s ->
+  cnt in_cfg_section (snd s) = if g_cfgheld (fst s) then 1 else 0.
+Proof.
+  intros s Hf Hr. pose proof (inv_reach _ _ _ InvT _ (invT_init Hf) invT_step s Hr) as H.
+  destruct s as [sh pool]. destruct H as (H & _). exact H.
 Qed.
 End ConfigRead.
